@@ -44,3 +44,23 @@ Example C06_example :
   regions 1000 [mkItv 400 600; mkItv 100 500; mkItv 150 200; mkItv 600 700]
   = [(100, 600, [mkItv 100 500; mkItv 150 200; mkItv 400 600]); (600, 700, [mkItv 600 700])].
 Proof. split; [repeat constructor; cbn; lia|vm_compute; reflexivity]. Qed.
+
+(* Numbering: for every history of additions (a fresh feature inserted at any admissible index of
+   the ordered list, renumbering from that index) and clears, every feature currently in the list
+   carries the number position + 1 - so the numbers are 1..n in list (location) order, the number
+   identifies the feature, and get_x(number) returns it.  (Stale dictionary entries of removed
+   features are never cleared by the code; they are not in the list, hence outside the statement.) *)
+Theorem C06_numbering_inv : forall ops st, num_inv st -> admissible st ops ->
+  num_inv (fold_left apply_op ops st).
+Proof. exact history_inv. Qed.
+Print Assumptions C06_numbering_inv.
+
+Example C06_numbering_example :
+  let st := fold_left apply_op [OAdd 0 7; OAdd 0 5; OAdd 1 9; OClear; OAdd 0 7] ([], []) in
+  admissible ([], []) [OAdd 0 7; OAdd 0 5; OAdd 1 9; OClear; OAdd 0 7] /\ num_inv ([], []) /\
+  fst st = [7] /\ number_of 7 (snd st) = Some 1 /\
+  fst (fold_left apply_op [OAdd 0 7; OAdd 0 5; OAdd 1 9] ([], [])) = [5; 9; 7].
+Proof.
+  cbn. repeat split; try (intros [H|H]; try lia; try destruct H; lia); try lia; try tauto; try constructor.
+  intros j x H. destruct j; discriminate.
+Qed.
